@@ -39,9 +39,11 @@ def unit_for(cls):
 
 
 def units(tier, seed):
-    classes = common.select_classes(e1.binary_classes(), tier, 'C01')
+    classes = [c for c in common.select_classes(e1.binary_classes(), tier, 'C01')
+               if c.__name__ not in _regions.whole_class_regions()]
     UNCOVERED[:] = common.uncovered_report(e1.binary_classes(), classes)
     return [unit_for(c) for c in classes]
 
 
-FINDING_REPLAYS = {}
+from checks import regions as _regions
+FINDING_REPLAYS = _regions.finding_replays('C01')
